@@ -51,3 +51,74 @@ Proof. intros -> H. replace ((hi - lo) * (pi * lo + (1 - pi) * hi)) with ((hi - 
 Theorem apply_coord_is_linear_interpolation_lemma lo hi q pi s ylo yhi :
   s = hi - lo -> pi * s = hi - q -> s * (pi * ylo + (1 - pi) * yhi) = s * ylo + (q - lo) * (yhi - ylo).
 Proof. intros -> H. replace ((hi - lo) * (pi * ylo + (1 - pi) * yhi)) with ((hi - lo) * yhi - (pi * (hi - lo)) * (yhi - ylo)) by ring. rewrite H. ring. Qed.
+
+(** ---------------------------------------------------------------------------------------------------------------- *)
+(** monotone sweep = robust search on ascending queries *)
+From Coq Require Import Sorted.
+Import ListNotations.
+
+(** the bracketing index is characterised by: least i with q <= x[i+1], capped at n-2 *)
+Definition idx_spec (n : Z) (x : Z -> Z) (q i : Z) : Prop :=
+  0 <= i <= n - 2 /\ (i = n - 2 \/ q <= x (i + 1)) /\ (i = 0 \/ x i < q).
+
+Lemma idx_spec_unique n x q i j : increasing n x -> idx_spec n x q i -> idx_spec n x q j -> i = j.
+Proof.
+  intros Hinc (Hi1 & Hi2 & Hi3) (Hj1 & Hj2 & Hj3).
+  destruct (Z.lt_trichotomy i j) as [Hlt|[Heq|Hgt]]; [exfalso | assumption | exfalso].
+  - (* i < j: q <= x(i+1) <= x j < q *)
+    assert (Hq : q <= x (i + 1)) by lia. assert (Hx : x j < q) by lia.
+    destruct (Z.eq_dec (i + 1) j) as [E|E]; [rewrite E in Hq; lia|]. specialize (Hinc (i + 1) j). lia.
+  - assert (Hq : q <= x (j + 1)) by lia. assert (Hx : x i < q) by lia.
+    destruct (Z.eq_dec (j + 1) i) as [E|E]; [rewrite E in Hq; lia|]. specialize (Hinc (j + 1) i). lia.
+Qed.
+
+Lemma robust_meets_spec n x q : 2 <= n -> increasing n x -> exists i, robust_index n x q = Some i /\ idx_spec n x q i.
+Proof.
+  intros Hn Hinc. destruct (robust_bracket_lemma n x q Hn Hinc) as (i & Hr & Hrange & Hlow & Hhigh & Hmid).
+  exists i. split; [assumption|]. unfold idx_spec. split; [assumption|].
+  assert (H0n : x 0 <= x (n - 2)) by (destruct (Z.eq_dec (n - 2) 0) as [->|]; [lia | specialize (Hinc 0 (n - 2)); lia]).
+  destruct (Z_lt_le_dec q (x 0)) as [Hq0|Hq0].
+  - specialize (Hlow Hq0). subst i. split; [|left; reflexivity].
+    destruct (Z.eq_dec (n - 2) 0); [left; lia|]. right. replace (0 + 1) with 1 by reflexivity. specialize (Hinc 0 1). lia.
+  - destruct (Z_lt_le_dec (x (n - 2)) q) as [Hqn|Hqn].
+    + specialize (Hhigh ltac:(lia)). subst i. split; [left; reflexivity|]. destruct (Z.eq_dec (n - 2) 0); [left; lia | right; lia].
+    + destruct (Hmid ltac:(lia)) as [H1 H2]. split; [right; assumption|]. destruct H1 as [H1|[H1 _]]; [right; assumption | left; assumption].
+Qed.
+
+Lemma sweep_advance_spec fuel : forall n x q xi, 0 <= xi <= n - 2 -> n - 2 - xi <= Z.of_nat fuel ->
+  let r := sweep_advance fuel n x q xi in
+  xi <= r <= n - 2 /\ (r = n - 2 \/ q <= x (r + 1)) /\ (r = xi \/ x r < q).
+Proof.
+  induction fuel as [|f IH]; intros n x q xi Hxi Hf; cbn [sweep_advance].
+  - cbv zeta. split; [lia|]. split; [left; lia | left; reflexivity].
+  - destruct ((xi <? n - 2) && negb (x (xi + 1) >=? q)) eqn:E.
+    + assert (Hlt : xi < n - 2) by lia. assert (Hx : x (xi + 1) < q) by lia.
+      specialize (IH n x q (xi + 1) ltac:(lia) ltac:(lia)). cbv zeta in *. destruct IH as (H1 & H2 & H3).
+      split; [lia|]. split; [assumption|]. right. destruct H3 as [->|H3]; assumption.
+    + cbv zeta. split; [lia|]. split; [|left; reflexivity]. destruct (Z.eq_dec xi (n - 2)); [left; assumption | right; lia].
+Qed.
+
+Lemma sweep_fold n x : 2 <= n -> increasing n x -> forall qs xi acc, 0 <= xi <= n - 2 ->
+  StronglySorted Z.le qs -> (forall q, In q qs -> xi = 0 \/ x xi < q) ->
+  map Some (snd (fold_left (fun st q => let xi := sweep_advance (Z.to_nat n) n x q (fst st) in (xi, snd st ++ [xi])) qs (xi, acc)))
+  = map Some acc ++ map (robust_index n x) qs.
+Proof.
+  intros Hn Hinc. induction qs as [|q qs IH]; intros xi acc Hxi Hs Hprev; cbn [fold_left map].
+  - rewrite app_nil_r. reflexivity.
+  - cbn [fst snd]. inversion Hs as [|? ? Hs' Hall]; subst.
+    destruct (sweep_advance_spec (Z.to_nat n) n x q xi Hxi ltac:(lia)) as (H1 & H2 & H3).
+    set (r := sweep_advance (Z.to_nat n) n x q xi) in *.
+    assert (Hspec : idx_spec n x q r).
+    { split; [lia|]. split; [assumption|]. destruct H3 as [->|H3]; [apply Hprev; left; reflexivity | right; assumption]. }
+    destruct (robust_meets_spec n x q Hn Hinc) as (i & Hi1 & Hi2).
+    assert (r = i) by (eapply idx_spec_unique; eassumption). subst i.
+    rewrite IH; [| lia | assumption |].
+    + rewrite map_app. cbn [map]. rewrite <- app_assoc. cbn [app]. rewrite Hi1. reflexivity.
+    + intros q' Hq'. rewrite Forall_forall in Hall. specialize (Hall q' Hq'). destruct Hspec as (_ & _ & [->|Hx]); [left; reflexivity | right; lia].
+Qed.
+
+Theorem monotone_equals_robust_lemma n x qs : 2 <= n -> increasing n x -> StronglySorted Z.le qs ->
+  map Some (sweep n x qs) = map (robust_index n x) qs.
+Proof.
+  intros Hn Hinc Hs. unfold sweep. apply (sweep_fold n x Hn Hinc qs 0 []); [lia | assumption | intros; left; reflexivity].
+Qed.
